@@ -7,6 +7,8 @@ mod pooldrv;
 mod poolsys;
 mod c03_c04_c06;
 mod c15;
+mod c16;
+mod c17;
 mod chainsys;
 mod c07_c08_c18;
 mod nodesys;
@@ -49,6 +51,8 @@ fn main() {
         "C13" => c13::run(tier),
         "C19" => c19::run(tier),
         "C20" => c20::run(tier),
+        "C16" => c16::run(tier),
+        "C17" => c17::run(tier),
         "C15" => c15::run(tier),
         "C05" => c05::run(tier),
         "C07" => c07_c08_c18::run_c07(tier),
